@@ -41,41 +41,47 @@ Definition finish (maxp maxs : Z) (r : ares) (p s : Z) : dres :=
   | AOk v n => if validate_ps maxp maxs p s then DOk v n p s else DErr E_INVALID
   end.
 
-Definition decimal_op (H maxp maxs : Z) (op : dop) (l_s r_s : bool) (p1 s1 p2 s2 : Z) (l r : parr) : dres :=
+(* the per-row closure handed to try_op!:
+   add/sub with equal scales: l.add_checked(r);  otherwise l.mul_checked(l_mul)?.OP(r.mul_checked(r_mul)?) *)
+Definition decimal_row (H : Z) (op : dop) (same_scale : bool) (l_mul r_mul : Z) (x y : Z) : res :=
   let mulc := mul_checked true H in
+  let rescaled (k : Z -> Z -> res) := rbind (mulc x l_mul) (fun a => rbind (mulc y r_mul) (fun b => k a b)) in
+  match op with
+  | DAdd => if same_scale then add_checked true H x y else rescaled (add_checked true H)
+  | DSub => if same_scale then sub_checked true H x y else rescaled (sub_checked true H)
+  | DMul => mulc x y
+  | DDiv => rescaled (div_checked true H)
+  | DRem => rescaled (mod_checked true H)
+  end.
+
+Definition decimal_op (H maxp maxs : Z) (op : dop) (l_s r_s : bool) (p1 s1 p2 s2 : Z) (l r : parr) : dres :=
   match op with
   | DAdd | DSub =>
       let rs := Z.max s1 s2 in
       let rp := Z.min (sat_u8 (as_u8 (sat_i8 (rs + Z.max (p1 - s1) (p2 - s2))) + 1)) maxp in
       match pow10_checked H (rs - s1) with Err k => DErr k | Ok l_mul =>
       match pow10_checked H (rs - s2) with Err k => DErr k | Ok r_mul =>
-        let comb := match op with DAdd => add_checked true H | _ => sub_checked true H end in
-        let f := if s1 =? s2 then comb
-                 else fun x y => rbind (mulc x l_mul) (fun a => rbind (mulc y r_mul) (fun b => comb a b)) in
-        finish maxp maxs (try_op f l_s r_s l r) rp rs
+        finish maxp maxs (try_op (decimal_row H op (s1 =? s2) l_mul r_mul) l_s r_s l r) rp rs
       end end
   | DMul =>
       let rp := Z.min (sat_u8 (p1 + (p2 + 1))) maxp in
       let rs := sat_i8 (s1 + s2) in
       if maxs <? rs then DErr E_INVALID
-      else finish maxp maxs (try_op mulc l_s r_s l r) rp rs
+      else finish maxp maxs (try_op (decimal_row H op false 1 1) l_s r_s l r) rp rs
   | DDiv =>
       let rs := Z.min (sat_i8 (s1 + 4)) maxs in
       let mul_pow := rs - s1 + s2 in
       let rp := Z.min (as_u8 (sat_i8 (mul_pow + p1))) maxp in
-      match (if 0 <? mul_pow then rbind (pow10_checked H mul_pow) (fun m => Ok m)
-             else Ok 1) with Err k => DErr k | Ok l_mul =>
+      match (if 0 <? mul_pow then pow10_checked H mul_pow else Ok 1) with Err k => DErr k | Ok l_mul =>
       match (if mul_pow <? 0 then pow10_checked H (- mul_pow) else Ok 1) with Err k => DErr k | Ok r_mul =>
-        let f := fun x y => rbind (mulc x l_mul) (fun a => rbind (mulc y r_mul) (fun b => div_checked true H a b)) in
-        finish maxp maxs (try_op f l_s r_s l r) rp rs
+        finish maxp maxs (try_op (decimal_row H op false l_mul r_mul) l_s r_s l r) rp rs
       end end
   | DRem =>
       let rs := Z.max s1 s2 in
       let rp := Z.min (as_u8 (sat_i8 (rs + Z.min (p1 - s1) (p2 - s2)))) maxp in
       let l_mul := pow10_wrapping H (rs - s1) in
       let r_mul := pow10_wrapping H (rs - s2) in
-      let f := fun x y => rbind (mulc x l_mul) (fun a => rbind (mulc y r_mul) (fun b => mod_checked true H a b)) in
-      finish maxp maxs (try_op f l_s r_s l r) rp rs
+      finish maxp maxs (try_op (decimal_row H op false l_mul r_mul) l_s r_s l r) rp rs
   end.
 
 (* ------------------------------------------------------------------ specification *)
